@@ -667,6 +667,31 @@ func vfC17RunSchedule(sess *Session, d *vfC17Dialer, cl *vfCluster, sch *vfC17Sc
 				}
 			}
 		}
+		if st.Cmd == "kill" && st.H != "" {
+			// the fill() HandleError spawned: when the model sends it away at its first check it leaves no trace in the
+			// projection, yet its goroutine may not have run at all so far (it would then look at a later state).  Wait
+			// until no such goroutine of this pool is left in the goroutine dump.
+			parked := false
+			for _, g := range st.Exp.Gate {
+				if g == st.H {
+					parked = true
+				}
+			}
+			if !parked {
+				vfC17Poll(vfC17DeadlineD(), func() bool {
+					for _, g := range strings.Split(vfGoroutineDump(), "\n\n") {
+						// a fill() started by HandleError that is still before / inside its first check (not parked by a rig,
+						// not connecting, not in fillingStopped)
+						if strings.Contains(g, "created by github.com/gocql/gocql.(*hostConnPool).HandleError") &&
+							strings.Contains(g, "hostConnPool).fill") && !strings.Contains(g, "vfC17Rig)") &&
+							!strings.Contains(g, "hostConnPool).connect") && !strings.Contains(g, "fillingStopped") {
+							return false
+						}
+					}
+					return true
+				})
+			}
+		}
 		if st.Cmd == "dial_fail" && st.Exp.Filling && (st.Exp.NDial > 0 || len(st.Exp.Connected) > 0) {
 			// a connect() of the round failed while siblings are still in flight: connectMany is a join, the pool must
 			// go on saying "filling" (longer than fillingStopped's back-off of at most 131 ms) until they have landed
@@ -686,6 +711,52 @@ func vfC17RunSchedule(sess *Session, d *vfC17Dialer, cl *vfCluster, sch *vfC17Sc
 		} else {
 			herr = fmt.Errorf("schedule %d did not become quiescent: %s", sch.N, r.proj())
 		}
+	}
+	// queries keep arriving: every Pick() on a pool below its size asks for a fill.  However the schedule went (a
+	// connection lost while a fill was in progress, a fill that only partly succeeded), an open pool must be back at
+	// its size (dials succeed from now on).  Early exit; "not refilled" only after the deadline with no fill, no dial
+	// and no hook activity any more (vfC17Settle) - decided by TLC on the record.
+	var repl *vfC17Rec
+	if atomic.LoadInt32(&r.lockDead) == 0 && atomic.LoadInt32(&r.fillStuck) == 0 && atomic.LoadInt32(&r.lockUnsure) == 0 {
+		lastPick := time.Time{}
+		var p vfC17Proj
+		o := vfC17Settle(func() bool {
+			p = r.proj()
+			if p.Closed {
+				return true
+			}
+			live := 0
+			r.mu.Lock()
+			for _, id := range p.Conns {
+				if !r.dead[id] {
+					live++
+				}
+			}
+			r.mu.Unlock()
+			if live == r.size && !p.Filling {
+				return true
+			}
+			if time.Since(lastPick) > 2*time.Millisecond {
+				lastPick = time.Now()
+				r.pool.Pick()
+			}
+			return false
+		}, func() int64 { return atomic.LoadInt64(&r.lastEv) }, func() bool {
+			return atomic.LoadInt32(&r.inDial) > 0 || r.proj().Filling
+		})
+		switch o {
+		case vfC17Unsure:
+			atomic.StoreInt32(&r.lockUnsure, 1)
+		case vfC17Bad:
+			atomic.AddInt32(&vfC17WallVerdicts, 1)
+			repl = &vfC17Rec{Sched: sch.N, Ev: "h_replenish", A: len(p.Conns), Size: sch.Size, Closed: p.Closed, Conns: p.Conns, Open: p.Open, Dead: []int{}}
+		default:
+			repl = &vfC17Rec{Sched: sch.N, Ev: "h_replenish", A: sch.Size, Size: sch.Size, Closed: p.Closed, Conns: p.Conns, Open: p.Open, Dead: []int{}}
+			if p.Closed {
+				repl.A = 0
+			}
+		}
+		r.runFree(quiet, 10*time.Second)
 	}
 	var end, fin vfC17Rec
 	if atomic.LoadInt32(&r.lockDead) == 0 {
@@ -731,6 +802,9 @@ func vfC17RunSchedule(sess *Session, d *vfC17Dialer, cl *vfCluster, sch *vfC17Sc
 	}
 	if stuck != nil {
 		recs = append(recs, *stuck)
+	}
+	if repl != nil {
+		recs = append(recs, *repl)
 	}
 	if divergence != "" {
 		recs = append(recs, vfC17Rec{Sched: sch.N, Ev: "h_diverged", Size: sch.Size, Conns: []int{}, Open: []int{}, Dead: []int{}, Q: divergence})
